@@ -629,6 +629,9 @@ def _model_limitation(e):
         inner = frames[-1].filename if frames else ''
         msg = str(e)
         in_model = isinstance(e, (TypeError, AttributeError)) and os.path.abspath(inner).startswith(_PYVC_DIR)
+        # an attribute that a stand-in object of the verifier (contracts/*, pyvc/*) does not carry
+        owner = type(getattr(e, 'obj', None)).__module__ if isinstance(e, AttributeError) and getattr(e, 'obj', None) is not None else ''
+        in_model = in_model or owner.split('.')[0] in ('pyvc', 'contracts', 'checks')
         if in_model or any(t in msg for t in ("'SArr'", "'R'", "'I'", "'B'", "'SImage'", "'ModVal'", "'Conj'")):
             raise OutsideSubset('the symbolic model does not support this operation: %s: %s' % (type(e).__name__, msg))
 
